@@ -25,6 +25,7 @@ EVIDENCE_DIR = os.path.join(HERE, "evidence")
 REPLAY_DIR = os.path.join(HERE, "replays")
 KNOWN = os.path.join(HERE, "known_findings.txt")
 NCPU = os.cpu_count() or 4
+REPLAY_LOCK = threading.Lock()
 KANI_FEATURES = ["--lib", "--no-default-features", "--features", "read,write"]
 
 # harness file -> source file (relative to crate) whose scratch copy gets the module appended
@@ -78,7 +79,7 @@ def parse_registry():
                         cur[k] = True
                     elif k in ("timeout", "mem"):
                         cur[k] = int(v)
-                    elif k in cur and isinstance(cur[k], str) and cur[k] and k not in ("tier", "kind", "stubs", "assumes", "replay"):
+                    elif k in cur and isinstance(cur[k], str) and cur[k] and k not in ("tier", "kind", "stubs", "assumes", "replay", "fs"):
                         cur[k] += " " + v
                     else:
                         cur[k] = v
@@ -135,7 +136,7 @@ class Scratch:
         lib = os.path.join(self.crate, "src/lib.rs")
         # crate-level feature gate needed to name `A: Allocator` in the signature of the Vec::push stub
         ls = open(lib).read()
-        open(lib, "w").write("#![cfg_attr(kani, feature(allocator_api))]\n" + ls)
+        open(lib, "w").write("#![cfg_attr(kani, feature(allocator_api))]\n#![cfg_attr(kani, recursion_limit = \"1024\")]\n" + ls)
         with open(lib, "a") as f:
             f.write("\n#[cfg(kani)]\nextern crate alloc;\n")
             f.write('#[cfg(kani)]\n#[allow(unused, dead_code)]\npub(crate) mod verif_support {\n    include!("%s");\n}\n'
@@ -342,13 +343,21 @@ class Runner:
 
     # ----------------------------------------------------------------------------------------
     def replay(self, h, lane, crate, env, out):
+        with REPLAY_LOCK:
+            self._replay(h, lane, crate, env, out)
+
+    def _replay(self, h, lane, crate, env, out):
         name = h["name"]
         if h["replay"] == "none":
             out["replay"] = {"status": "not-replayable", "why": "harness marked replay=none"}
             return
         logpath = os.path.join(self.logdir, name + ".playback-gen.log")
-        cmd = self.kani_cmd(h, lane, ["-Z", "concrete-playback", "--concrete-playback=print"])
-        rc, to, wall = run_cmd(cmd, crate, logpath, h["timeout"] * 2, h["mem"], env)
+        # kani turns formula slicing off for playback, which can make the formula 10x larger than the one
+        # just solved (measured 2.6M -> 23M variables). We put `--slice-formula` back: values outside the
+        # failing check's cone of influence may then be arbitrary, which is fine because the counterexample
+        # only counts if it REPRODUCES natively below.
+        cmd = self.kani_cmd(h, lane, ["-Z", "concrete-playback", "--concrete-playback=print"]) + ["--slice-formula"]
+        rc, to, wall = run_cmd(cmd, crate, logpath, max(1800, h["timeout"] * 2), max(40, h["mem"]), env)
         text = open(logpath, errors="replace").read()
         blocks = re.findall(r"```\s*(?:rust)?\n(.*?)```", text, re.S)
         # kani prints one test per failed check AND per satisfied cover: keep the one for a failing check
@@ -362,43 +371,62 @@ class Runner:
         test_src = pick[0]
         tm = re.search(r"fn (kani_concrete_playback_\w+)", test_src)
         tname = tm.group(1) if tm else "kani_concrete_playback"
-        # append to the harness module of the scratch source so the harness fn is in scope
-        src = os.path.join(crate, INJECT[h["file"]])
-        modname = "verif_kani_" + h["file"][:-3]
-        s = open(src).read()
-        marker = "mod %s {\n" % modname
-        idx = s.rfind(marker)
-        s = s[:idx + len(marker)] + test_src + "\n" + s[idx + len(marker):]
-        open(src, "w").write(s)
         os.makedirs(REPLAY_DIR, exist_ok=True)
         rp = os.path.join(REPLAY_DIR, "%s.%s.rs" % (h["props"][0] if h["props"] else "X", name))
+        modname = "verif_kani_" + h["file"][:-3]
+        # native replay runs the REAL code: no kani stubs apply under `cargo kani playback`, and for
+        # harnesses with a source substitution the unsubstituted scratch crate is tried first
+        crates = [self.s.crate] if crate == self.s.crate else [self.s.crate, crate]
         results = {}
-        for profile in ("dev",):
-            plog = os.path.join(self.logdir, name + ".playback-%s.log" % profile)
+        for ci, rcrate in enumerate(crates):
+            src = os.path.join(rcrate, INJECT[h["file"]])
+            orig = open(src).read()
+            marker = "mod %s {\n" % modname
+            idx = orig.rfind(marker)
+            open(src, "w").write(orig[:idx + len(marker)] + test_src + "\n" + orig[idx + len(marker):])
+            tag = "real" if ci == 0 else "substituted"
+            plog = os.path.join(self.logdir, name + ".playback-%s.log" % tag)
             penv = dict(env)
             penv["RUSTFLAGS"] = (penv.get("RUSTFLAGS", "") + " --cfg verif_replay").strip()
             penv["CARGO_TARGET_DIR"] = lane + "-pb"
             cmd = ["cargo", "kani", "playback", "-Z", "concrete-playback", "-Z", "stubbing"] + KANI_FEATURES + ["--", tname, "--nocapture"]
-            if "c-ffi" in h["flags"].split():
-                pass
-            rc, to, wall = run_cmd(cmd, crate, plog, 1200, 24, penv)
+            try:
+                rc, to, wall = run_cmd(cmd, rcrate, plog, 900, 12, penv)
+            finally:
+                open(src, "w").write(orig)
             ptxt = open(plog, errors="replace").read()
-            if to:
-                results[profile] = "hang(>1200s)"
-            elif re.search(r"test result: FAILED|panicked at", ptxt):
-                results[profile] = "reproduced"
-            elif re.search(r"test result: ok. 1 passed", ptxt):
-                results[profile] = "passed"
-            else:
-                results[profile] = "error(rc=%s)" % rc
             out.setdefault("replay_logs", []).append(plog)
+            if to:
+                results[tag] = "hang(>900s)"
+            elif re.search(r"test result: FAILED|panicked at|memory allocation of", ptxt):
+                # the native panic must be THE failed check (same message, or same source location in
+                # the repository code), not some other panic of the harness environment
+                hit = False
+                for fc in out["failed_real"]:
+                    d = fc["desc"].strip('"')
+                    mloc = re.match(r"(\S+?):(\d+):\d+", fc["loc"].replace("../", ""))
+                    if d and d in ptxt:
+                        hit = True
+                    elif mloc and re.search(r"panicked at [^\n]*%s:%s:" % (re.escape(os.path.basename(mloc.group(1))), mloc.group(2)), ptxt):
+                        hit = True
+                    elif "unwinding assertion" in fc["desc"] and re.search(r"memory allocation of \d+ bytes failed|capacity overflow", ptxt):
+                        hit = True
+                results[tag] = "reproduced" if hit else "other-panic"
+            elif re.search(r"test result: ok. 1 passed", ptxt):
+                results[tag] = "passed"
+            elif "error: could not compile" in ptxt or "error[E" in ptxt:
+                results[tag] = "does-not-compile"
+            else:
+                results[tag] = "error(rc=%s)" % rc
+            if results[tag].startswith("reproduced") or results[tag].startswith("hang"):
+                break
         with open(rp, "w") as f:
             f.write("// counterexample for harness %s (property %s)\n" % (name, ",".join(h["props"])))
             f.write("// failed checks:\n")
             for fc in out["failed_real"]:
                 f.write("//   %s | %s | %s\n" % (fc["check"], fc["desc"], fc["loc"]))
-            f.write("// native replay results: %s\n" % json.dumps(results))
-            f.write("// to replay: apply to a scratch copy prepared by vcheck.py (--keep), inside mod %s of %s, then\n" % (modname, INJECT[h["file"]]))
+            f.write("// native replay results (real = unmodified scratch copy of /repo): %s\n" % json.dumps(results))
+            f.write("// to replay: VERIF_DEV=x ./vcheck.py X --only %s --keep, paste the test below inside `mod %s` of %s in the scratch copy, then\n" % (name, modname, INJECT[h["file"]]))
             f.write("//   RUSTFLAGS='--cfg verif_replay' cargo kani playback -Z concrete-playback %s -- %s\n" % (" ".join(KANI_FEATURES), tname))
             f.write(test_src)
         ok = any(v.startswith("reproduced") or v.startswith("hang") for v in results.values())
